@@ -41,55 +41,7 @@ func runC20(c *Ctx) {
 		}
 		return ""
 	}
-	for _, spec := range []struct{ fn, write string }{
-		{"fs.registryOnDisk.Add", "fs.registryMap.add"},
-		{"fs.registryOnDisk.UpdateNoLocks", "fs.registryMap.set"},
-	} {
-		f := w.Fn(spec.fn)
-		g := w.G(f)
-		c.Analysed(f)
-		info := f.Pkg.TypesInfo
-		wr := g.callNodes(spec.write)
-		setK := l1Key(f, "Set")
-		c.Check(len(wr) == 1 && setK != "", r2, shortKey(spec.fn)+": disk write and L1 refresh present", f.Decl.Pos(), "one disk write, L1 Handles.Set", fmt.Sprintf("disk writes %d, L1 set key %q", len(wr), setK), nil)
-		if len(wr) != 1 || setK == "" {
-			continue
-		}
-		cacheTouch := calls(setK, kL2Set)
-		fail, _, ok := g.ErrBranches(wr[0].n, wr[0].cs)
-		okOrder := ok && len(g.MustPrecede(calls(spec.write), cacheTouch)) == 0
-		if okOrder {
-			r := g.Reach(fail, nil, nil)
-			for _, x := range g.Find(cacheTouch) {
-				if r.Seen[x.ID] {
-					okOrder = false
-				}
-			}
-		}
-		c.Check(okOrder, r2, shortKey(spec.fn)+": caches are written only after the disk write succeeded", wr[0].cs.Call.Pos(), "cache refresh unreachable from the failure edge, disk write first", "the caches can be refreshed with handles that did not reach the registry file", nil)
-		// both caches are refreshed from the parameter, in loops over it
-		sig := f.Obj.Type().(*types.Signature)
-		par := sig.Params().At(sig.Params().Len() - 1)
-		okAll := true
-		for _, k := range []string{setK, kL2Set} {
-			ncs := g.callNodes(k)
-			if len(ncs) == 0 {
-				okAll = false
-			}
-			for _, nc := range ncs {
-				inLoop := false
-				for _, h := range g.rangeHeads(nc.n) {
-					if mentionsObj(info, h.RangeHead.X, par) {
-						inLoop = true
-					}
-				}
-				if !inLoop {
-					okAll = false
-				}
-			}
-		}
-		c.Check(okAll, r2, shortKey(spec.fn)+": L1 and L2 are refreshed for every written handle", f.Decl.Pos(), "Handles.Set and SetStruct inside loops over the written payload", "a written handle is not propagated to one of the caches (a later read is served the old handle)", nil)
-	}
+	registryCacheAfterWriteRule(c, r2)
 	{
 		f := w.Fn("fs.registryOnDisk.Update")
 		g := w.G(f)
@@ -382,4 +334,70 @@ func innermostLoop(g *Graph, n *GNode) *GNode {
 		}
 	}
 	return nil
+}
+
+// registryCacheAfterWriteRule (part of C20.R2, shared by C03.R6): Add / UpdateNoLocks of the file-system
+// registry publish handles to the L1 / L2 caches only after the registry file write succeeded.
+func registryCacheAfterWriteRule(c *Ctx, r2 string) {
+	w := c.W
+	const kL2Set = "sop.L2Cache.SetStruct"
+	l1Key := func(f *Func, suffix string) string {
+		for _, cs := range w.AllSites(f) {
+			if strings.HasSuffix(cs.Key, "."+suffix) {
+				if sel, ok := cs.Call.Fun.(*ast.SelectorExpr); ok && strings.Contains(types.ExprString(sel.X), "l1Cache.Handles") {
+					return cs.Key
+				}
+			}
+		}
+		return ""
+	}
+	for _, spec := range []struct{ fn, write string }{
+		{"fs.registryOnDisk.Add", "fs.registryMap.add"},
+		{"fs.registryOnDisk.UpdateNoLocks", "fs.registryMap.set"},
+	} {
+		f := w.Fn(spec.fn)
+		g := w.G(f)
+		c.Analysed(f)
+		info := f.Pkg.TypesInfo
+		wr := g.callNodes(spec.write)
+		setK := l1Key(f, "Set")
+		c.Check(len(wr) == 1 && setK != "", r2, shortKey(spec.fn)+": disk write and L1 refresh present", f.Decl.Pos(), "one disk write, L1 Handles.Set", fmt.Sprintf("disk writes %d, L1 set key %q", len(wr), setK), nil)
+		if len(wr) != 1 || setK == "" {
+			continue
+		}
+		cacheTouch := calls(setK, kL2Set)
+		fail, _, ok := g.ErrBranches(wr[0].n, wr[0].cs)
+		okOrder := ok && len(g.MustPrecede(calls(spec.write), cacheTouch)) == 0
+		if okOrder {
+			r := g.Reach(fail, nil, nil)
+			for _, x := range g.Find(cacheTouch) {
+				if r.Seen[x.ID] {
+					okOrder = false
+				}
+			}
+		}
+		c.Check(okOrder, r2, shortKey(spec.fn)+": caches are written only after the disk write succeeded", wr[0].cs.Call.Pos(), "cache refresh unreachable from the failure edge, disk write first", "the caches can be refreshed with handles that did not reach the registry file", nil)
+		// both caches are refreshed from the parameter, in loops over it
+		sig := f.Obj.Type().(*types.Signature)
+		par := sig.Params().At(sig.Params().Len() - 1)
+		okAll := true
+		for _, k := range []string{setK, kL2Set} {
+			ncs := g.callNodes(k)
+			if len(ncs) == 0 {
+				okAll = false
+			}
+			for _, nc := range ncs {
+				inLoop := false
+				for _, h := range g.rangeHeads(nc.n) {
+					if mentionsObj(info, h.RangeHead.X, par) {
+						inLoop = true
+					}
+				}
+				if !inLoop {
+					okAll = false
+				}
+			}
+		}
+		c.Check(okAll, r2, shortKey(spec.fn)+": L1 and L2 are refreshed for every written handle", f.Decl.Pos(), "Handles.Set and SetStruct inside loops over the written payload", "a written handle is not propagated to one of the caches (a later read is served the old handle)", nil)
+	}
 }
